@@ -47,9 +47,9 @@ func hexList(ks [][]byte) string {
 }
 
 func (prop) Gen(r *core.Rand, tier string) []core.Case {
-	n := 300
+	n := 160
 	if tier == "thorough" {
-		n = 6000
+		n = 1500
 	}
 	cs := []core.Case{
 		{ID: "fix-rev-absent-start", NT: true, Ops: []string{
@@ -337,7 +337,7 @@ func (prop) New() core.Runner {
 	for i := range rn.ref {
 		rn.ref[i] = map[string][]byte{}
 	}
-	dir, err := os.MkdirTemp("", "vh-c19-")
+	dir, err := os.MkdirTemp(scratchBase(), "vh-c19-")
 	if err != nil {
 		rn.broken = true
 		return rn
@@ -993,4 +993,17 @@ func (rn *runner) iter(ctx *core.Ctx, op []string) string {
 		vis = "-"
 	}
 	return vis + " " + status
+}
+
+// scratchBase prefers a memory-backed directory: the leveldb driver fsyncs every Put/Delete,
+// which makes an on-disk scratch directory the bottleneck of the run ("" = os.TempDir()).
+func scratchBase() string {
+	if st, err := os.Stat("/dev/shm"); err == nil && st.IsDir() {
+		if f, err := os.CreateTemp("/dev/shm", "vh-probe-"); err == nil {
+			f.Close()
+			os.Remove(f.Name())
+			return "/dev/shm"
+		}
+	}
+	return ""
 }
